@@ -221,3 +221,65 @@ Proof.
   apply (C02_prover_mono C02_test_machine 1000 1000000);
     [exact C02_test_machine_run|discriminate|vm_compute; discriminate].
 Qed.
+
+(** ------------------------------------------------------------------ *)
+(** F14 (Proofs/F14Witness.v): the hypothesis on the applications CANNOT be
+    dropped.  For the faithful model of the unchanged code there is a run
+    whose verdict is false: the 23-state 4-colour program [f14_prog] (text
+    [f14_text]), cycle limit 400.  [run_prover] answers undfnd at slot
+    (16, 0) = Q0 with rulapp 4 (one bulk application, 4 times the inferred
+    rule "L0 +1, R0 -1" in state O: the last of the four is one too many, see
+    C03_application_refuted_F14); the cell-by-cell machine halts at slot
+    (14, 0) = O0 after 79 steps, and - it halts only once - never at (16, 0). *)
+From BB Require Import F14Witness.
+
+(** the witness, in full *)
+Theorem C02_F14_witness :
+  from_str f14_text = Some f14_prog /\
+  run_prover f14_prog 400 = Ok (mkRes undfnd 53 46 13 4 [] (Some (16, 0))) /\
+  halts_at (to_prog f14_prog) init_config 79 (14, 0) /\
+  (forall n sl, halts_at (to_prog f14_prog) init_config n sl -> n = 79%nat /\ sl = (14, 0)) /\
+  (forall n, ~ halts_at (to_prog f14_prog) init_config n (16, 0)).
+Proof.
+  exact (conj f14_prog_text (conj f14_model_run (conj f14_real_halt
+          (conj f14_real_halt_only f14_real_never_halts_at_reported_slot)))).
+Qed.
+Print Assumptions C02_F14_witness.
+
+(** the negation of the undfnd clause of [C02_outcome_sound_given_rules] /
+    [C02_outcome_sound_given_real], for a run of the model *)
+Theorem C02_verdict_refuted_F14 :
+  exists comp lim r apps,
+    run_prover_trace comp lim = Ok (r, apps) /\ r_result r = undfnd /\
+    ~ (exists n q z, tm_steps (to_prog comp) n init_config = Some (q, z) /\
+         r_last_slot r = Some (q, zc z) /\
+         halts_at (to_prog comp) init_config n (q, zc z) /\ marks_of z = r_marks r).
+Proof. exact verdict_refuted_F14. Qed.
+Print Assumptions C02_verdict_refuted_F14.
+
+(** in plain words: undfnd is reported at a slot where the real machine never
+    halts, while it does halt, at another slot *)
+Theorem C02_verdict_slot_refuted_F14 :
+  exists comp lim r sl n' sl',
+    run_prover comp lim = Ok r /\ r_result r = undfnd /\ r_last_slot r = Some sl /\
+    (forall n, ~ halts_at (to_prog comp) init_config n sl) /\
+    halts_at (to_prog comp) init_config n' sl' /\ sl' <> sl.
+Proof. exact verdict_slot_refuted_F14. Qed.
+Print Assumptions C02_verdict_slot_refuted_F14.
+
+(** so the undfnd clause, stated without hypothesis on the applications, is false *)
+Theorem C02_outcome_unconditional_refuted_F14 :
+  ~ (forall comp lim r apps,
+       run_prover_trace comp lim = Ok (r, apps) -> r_result r = undfnd ->
+       exists n q z, tm_steps (to_prog comp) n init_config = Some (q, z) /\
+         r_last_slot r = Some (q, zc z) /\
+         halts_at (to_prog comp) init_config n (q, zc z) /\ marks_of z = r_marks r).
+Proof. exact outcome_unconditional_refuted_F14. Qed.
+Print Assumptions C02_outcome_unconditional_refuted_F14.
+
+(** and both hypotheses of the conditional theorems fail for that run *)
+Theorem C02_hypotheses_fail_F14 : forall r apps,
+  run_prover_trace f14_prog 400 = Ok (r, apps) ->
+  ~ apps_real (to_prog f14_prog) apps /\ ~ apps_valid (to_prog f14_prog) apps.
+Proof. exact f14_apps_not_real. Qed.
+Print Assumptions C02_hypotheses_fail_F14.
